@@ -65,6 +65,9 @@ type c08NodeX struct {
 	Log      []JProp  `json:"log"`
 	Cond     []JProp  `json:"cond"`
 	Hist     []JBK    `json:"hist"`
+	// proposals a flow added WHILE Observation ran, after the pre-build hooks and before the build hooks read the store
+	// (scripted interleaving, see c08_helpers_test.go)
+	Readd []JProp `json:"readd,omitempty"`
 }
 
 type c08PoolEntry struct {
@@ -538,13 +541,6 @@ func c08RunWorld(t *testing.T, rc c08Recipe, em *Emitter) []c08Shot {
 	now := time.Now()
 
 	// ---- what each node should hold now
-	var prevBytes []byte
-	var jprev *JOutcome
-	if prev != nil {
-		prevBytes = must(prev.Encode())
-		jp := toJOutcome(*prev)
-		jprev = &jp
-	}
 	lens := make([]int, len(pool))
 	for i := range pool {
 		lens[i] = len(must(gojson.Marshal(pool[i])))
@@ -603,86 +599,103 @@ func c08RunWorld(t *testing.T, rc c08Recipe, em *Emitter) []c08Shot {
 	// ---- the shots
 	var shots []c08Shot
 	for _, seq := range rc.Seqs {
-		sh := c08Shot{Seq: seq, Info: info}
-		a := newAux(digest, seq/10) // the performables are ordered with the source of seqNr/10
-		used := map[int]bool{}
-		for i := range nodeX {
-			for _, k := range nodeX[i].Staged {
-				used[k] = true
-			}
-		}
-		x := c08X{Info: info, F: F, Seq: seq, Digest: hx(digest[:]), Nodes: nodeX[:], Prev: jprev}
-		// pool entries that nobody holds are dropped from the line (indices are remapped)
-		remap := map[int]int{}
-		for k := range pool {
-			if used[k] {
-				remap[k] = len(x.Pool)
-				x.Pool = append(x.Pool, c08PoolEntry{JCR: toJCRc(pool[k]), Len: lens[k]})
-				a.wid(pool[k].WorkID)
-				a.aux.Utg[hx(pool[k].UpkeepID[:])] = int(utg(pool[k].UpkeepID))
-			}
-		}
-		x.Nodes = make([]c08NodeX, 2)
-		for i := range nodeX {
-			nx := nodeX[i]
-			st := make([]int, len(nx.Staged))
-			for j, k := range nx.Staged {
-				st[j] = remap[k]
-			}
-			nx.Staged = st
-			x.Nodes[i] = nx
-			for _, p := range append(append([]JProp{}, nx.Log...), nx.Cond...) {
-				a.aux.Utg[p.UID] = int(utg(b32(p.UID)))
-			}
-		}
-		if prev != nil {
-			for _, round := range prev.SurfacedProposals {
-				for _, p := range round {
-					a.aux.Utg[hx(p.UpkeepID[:])] = int(utg(p.UpkeepID))
-				}
-			}
-		}
-		a.aux.Wg = nil
-		x.Aux = a.aux
-		for i, n := range nodes {
-			raw, err := n.Plugin.Observation(context.Background(), ocr3types.OutcomeContext{SeqNr: seq, PreviousOutcome: prevBytes}, nil)
-			sh.Raw[i], sh.Err[i] = raw, err
-			sh.Limits = n.Info.Limits
-			if err == nil {
-				peer := nodes[1-i]
-				if verr := peer.Plugin.ValidateObservation(context.Background(), ocr3types.OutcomeContext{SeqNr: seq, PreviousOutcome: prevBytes}, nil,
-					ocr2plustypes.AttributedObservation{Observation: raw, Observer: commontypes.OracleID(i)}); verr != nil {
-					sh.PeerErr[i] = verr.Error()
-				}
-			}
-			ni := c08NodeImpl{Len: len(raw)}
-			if err != nil {
-				ni.Err = err.Error()
-			} else {
-				var o ocr2keepersv3.AutomationObservation
-				if err := gojson.Unmarshal(raw, &o); err != nil {
-					ni.Err = "observation bytes do not decode: " + err.Error()
-				} else {
-					jo := toJObsC(o)
-					ni.Obs = &jo
-					sh.Obs[i] = &o
-					base := o
-					base.Performable = nil
-					ni.Base = len(must(base.Encode()))
-					for _, p := range o.UpkeepProposals {
-						x.Aux.Utg[hx(p.UpkeepID[:])] = int(utg(p.UpkeepID))
-					}
-					for _, p := range o.Performable {
-						x.Aux.Utg[hx(p.UpkeepID[:])] = int(utg(p.UpkeepID))
-					}
-				}
-			}
-			sh.Impl.Nodes = append(sh.Impl.Nodes, ni)
-		}
-		sh.X = x
-		shots = append(shots, sh)
+		shots = append(shots, c08TakeShot(digest, F, seq, pool, lens, nodeX, prev, [2]*Node{nodes[0].Node, nodes[1].Node}, info, nil))
 	}
 	return shots
+}
+
+// c08TakeShot calls Observation(seq, prev) on both instances and builds the case line: what the harness says each node
+// holds (nodeX, indices into pool) and what each instance returned.  `before[i]`, if set, runs right before instance i's call.
+func c08TakeShot(digest [32]byte, F int, seq uint64, pool []ocr2keepers.CheckResult, lens []int, nodeX [2]c08NodeX,
+	prev *ocr2keepersv3.AutomationOutcome, nodes [2]*Node, info map[string]int, before func(i int)) c08Shot {
+	var prevBytes []byte
+	var jprev *JOutcome
+	if prev != nil {
+		prevBytes = must(prev.Encode())
+		jp := toJOutcome(*prev)
+		jprev = &jp
+	}
+	sh := c08Shot{Seq: seq, Info: info}
+	a := newAux(digest, seq/10) // the performables are ordered with the source of seqNr/10
+	used := map[int]bool{}
+	for i := range nodeX {
+		for _, k := range nodeX[i].Staged {
+			used[k] = true
+		}
+	}
+	x := c08X{Info: info, F: F, Seq: seq, Digest: hx(digest[:]), Prev: jprev}
+	// pool entries that nobody holds are dropped from the line (indices are remapped)
+	remap := map[int]int{}
+	for k := range pool {
+		if used[k] {
+			remap[k] = len(x.Pool)
+			x.Pool = append(x.Pool, c08PoolEntry{JCR: toJCRc(pool[k]), Len: lens[k]})
+			a.wid(pool[k].WorkID)
+			a.aux.Utg[hx(pool[k].UpkeepID[:])] = int(utg(pool[k].UpkeepID))
+		}
+	}
+	x.Nodes = make([]c08NodeX, 2)
+	for i := range nodeX {
+		nx := nodeX[i]
+		st := make([]int, len(nx.Staged))
+		for j, k := range nx.Staged {
+			st[j] = remap[k]
+		}
+		nx.Staged = st
+		x.Nodes[i] = nx
+		for _, p := range append(append(append([]JProp{}, nx.Log...), nx.Cond...), nx.Readd...) {
+			a.aux.Utg[p.UID] = int(utg(b32(p.UID)))
+		}
+	}
+	if prev != nil {
+		for _, round := range prev.SurfacedProposals {
+			for _, p := range round {
+				a.aux.Utg[hx(p.UpkeepID[:])] = int(utg(p.UpkeepID))
+			}
+		}
+	}
+	a.aux.Wg = nil
+	x.Aux = a.aux
+	for i, n := range nodes {
+		if before != nil {
+			before(i)
+		}
+		raw, err := n.Plugin.Observation(context.Background(), ocr3types.OutcomeContext{SeqNr: seq, PreviousOutcome: prevBytes}, nil)
+		sh.Raw[i], sh.Err[i] = raw, err
+		sh.Limits = n.Info.Limits
+		if err == nil {
+			peer := nodes[1-i]
+			if verr := peer.Plugin.ValidateObservation(context.Background(), ocr3types.OutcomeContext{SeqNr: seq, PreviousOutcome: prevBytes}, nil,
+				ocr2plustypes.AttributedObservation{Observation: raw, Observer: commontypes.OracleID(i)}); verr != nil {
+				sh.PeerErr[i] = verr.Error()
+			}
+		}
+		ni := c08NodeImpl{Len: len(raw)}
+		if err != nil {
+			ni.Err = err.Error()
+		} else {
+			var o ocr2keepersv3.AutomationObservation
+			if err := gojson.Unmarshal(raw, &o); err != nil {
+				ni.Err = "observation bytes do not decode: " + err.Error()
+			} else {
+				jo := toJObsC(o)
+				ni.Obs = &jo
+				sh.Obs[i] = &o
+				base := o
+				base.Performable = nil
+				ni.Base = len(must(base.Encode()))
+				for _, p := range o.UpkeepProposals {
+					x.Aux.Utg[hx(p.UpkeepID[:])] = int(utg(p.UpkeepID))
+				}
+				for _, p := range o.Performable {
+					x.Aux.Utg[hx(p.UpkeepID[:])] = int(utg(p.UpkeepID))
+				}
+			}
+		}
+		sh.Impl.Nodes = append(sh.Impl.Nodes, ni)
+	}
+	sh.X = x
+	return sh
 }
 
 var uint256MaxBig, _ = new(big.Int).SetString("115792089237316195423570985008687907853269984665640564039457584007913129639935", 10)
@@ -833,6 +846,20 @@ func TestC08(t *testing.T) {
 	defer em.Close()
 	names, raws, replayOnly := corpusInputs(t, "C08")
 	for i, raw := range raws {
+		var probe struct {
+			Script bool `json:"script"`
+		}
+		if err := json.Unmarshal(raw, &probe); err != nil {
+			t.Fatalf("%s: %v", names[i], err)
+		}
+		if probe.Script {
+			var in c08ScriptInput
+			if err := json.Unmarshal(raw, &in); err != nil {
+				t.Fatalf("%s: %v", names[i], err)
+			}
+			c08RunAndEmitScript(t, em, names[i], in.c08ScriptRecipe)
+			continue
+		}
 		var in c08Input
 		if err := json.Unmarshal(raw, &in); err != nil {
 			t.Fatalf("%s: %v", names[i], err)
@@ -845,9 +872,18 @@ func TestC08(t *testing.T) {
 	for _, rc := range c08Edge() {
 		c08RunAndEmit(t, em, "edge", rc)
 	}
+	for _, rc := range c08ScriptEdge() {
+		c08RunAndEmitScript(t, em, "edge", rc)
+	}
 	r := NewRng(seed() + 8000)
-	n := tierN(150, 2400)
+	n := tierN(110, 2000)
 	for i := 0; i < n; i++ {
 		c08RunAndEmit(t, em, "gen", c08Gen(r, i))
+	}
+	// the same two instances over several rounds
+	rs := NewRng(seed() + 8500)
+	ns := tierN(40, 800)
+	for i := 0; i < ns; i++ {
+		c08RunAndEmitScript(t, em, "gen", c08ScriptGen(rs, i))
 	}
 }
